@@ -349,3 +349,20 @@ Theorem C08_register_before_response_refuted :
   find current_variant redis_backend (run current_variant redis_backend 300000 init (lost_response_history true)) 2 7 = Absent.
 Proof. exact register_before_response_refuted. Qed.
 Print Assumptions C08_register_before_response_refuted.
+
+(* the heartbeat's REBUILD path (record absent, or only the tombstone of a matched delete) racing a login: closed under every
+   interleaving in the repaired code (SetNX, then CompareAndSwap(tombstone -> rebuilt); finite sweeps), refuted for a rebuild
+   that reads "absent" and then writes (seeded C08-20; harness key race-state-rebuild-window) *)
+Theorem C08_state_rebuild_windows_closed :
+  forallb (fun sched => loc_is (rloc (fst (completed true (rrun true true (rs_tombstoned, [REnsure 7 1 10 0; RConnect 7 2 30]) sched))) 7) 2 30)
+          (all_scheds 5 2) = true /\
+  forallb (fun sched => loc_is (rloc (fst (completed true (rrun true true (rsh_empty, [REnsure 7 1 10 0; RConnect 7 2 30]) sched))) 7) 2 30)
+          (all_scheds 5 2) = true.
+Proof. exact rebuild_windows_closed. Qed.
+Print Assumptions C08_state_rebuild_windows_closed.
+
+Theorem C08_state_rebuild_read_then_write_refuted :
+  exists sched, rloc (fst (rrun false false (rs_tombstoned, [REnsure 7 1 10 0; RConnect 7 2 30]) sched)) 7 = Some (1%N, 10%N) /\
+                snd (rrun false false (rs_tombstoned, [REnsure 7 1 10 0; RConnect 7 2 30]) sched) = [RDone; RDone].
+Proof. exact rebuild_read_then_write_refuted. Qed.
+Print Assumptions C08_state_rebuild_read_then_write_refuted.
